@@ -444,6 +444,70 @@ Example C23_next_change_forks_nonvacuous :
     = Some ([2%nat], Some 3).
 Proof. vm_compute. repeat split; reflexivity. Qed.
 
+(* --- closer round 2: ALL FOUR observers for the MIXED class on ARBITRARY block trees, by induction.
+   For EVERY well-formed block tree (forks included), ANY scheduled and forced announcements (a block
+   may carry both) and EVERY history of possible imports and finalisations of ANY length outside the
+   guard of the known finding forced-change-on-finalised-chain, the repaired Go model and the
+   Substrate specification agree after every event on success/failure and on ALL FOUR observers
+   (agree_run, with obs_eq): current set id, authorities of every set id, set id per block number AND
+   the next authority change seen from every imported block that descends from the last finalised
+   block, with scheduled changes pending on several forks and forced changes pending next to them
+   (on live and on abandoned forks).  No extra hypothesis beyond those of C23_refines_mixed_forks:
+   this is that theorem with the fourth observer added; it subsumes C23_next_change_forks
+   (forced = []), C23_refines_forced_histories and C23_refines_chain_mixed.  The proof carries
+   MixedForks.xinv and NextChangeForks.einv together (einv_xstep: a forced change that takes effect
+   empties the forest, everything else is as in the scheduled-only case); in a related state gossamer's
+   "first applicable forced change of its live list, first applicable root, then the smaller one with
+   0 = none" equals Substrate's minimum over the roots it keeps folded on over all its forced changes:
+   roots by fold_first (siblings unrelated), forced list because it is sorted (fold_min_sorted_acc),
+   dead-fork forced entries never lie on the ancestry of a live block, all effective numbers >= 1. --- *)
+From C23 Require Import MixedForksNext.
+Theorem C23_refines_mixed_forks_all_observers : forall t sched forced evs, wf t = true -> sched_ok sched ->
+  forced_ok forced -> agree_run t sched forced [O] O ginit sinit evs.
+Proof. exact mixed_forks_all_observers. Qed.
+Print Assumptions C23_refines_mixed_forks_all_observers.
+
+(* the per-state form, for ANY best block that descends from the last finalised block (imported or
+   not): in every state related by the two invariants the two observers return the same *)
+Theorem C23_mixed_forks_next_change_state : forall t imported fin g q best, wf t = true ->
+  xinv t imported fin g q -> einv t (g_roots g) -> is_anc t fin best = true ->
+  go_next_change fixed t g best = Some (spec_next_change t q best).
+Proof. exact mixed_forks_next_change_state. Qed.
+Print Assumptions C23_mixed_forks_next_change_state.
+
+(* non-vacuity: blocks 2 and 3 fork from block 1; block 2 schedules a change (effective number 5, or
+   3 in the second configuration), block 4 (on 2) announces a forced change (effective 4), block 3
+   announces a forced change on the other fork (effective 4).  After importing 1..5 one root and two
+   forced changes are pending.  Seen from blocks 4 and 5 nothing is due; from block 6 (number 4, on
+   fork 2-4) the forced change of block 4 is due; from block 7 (number 5) both the forced change and
+   the scheduled one are due and the smaller effective number wins on both sides (4, resp. 3 when
+   the scheduled change has delay 1).  Finalising block 2 (outside the guard) abandons the fork of
+   block 3: gossamer drops its forced change, Substrate keeps it (its tree did not change), the
+   observers still agree. *)
+Example C23_mixed_forks_all_observers_nonvacuous :
+  let t := [O; 1%nat; 1%nat; 2%nat; 3%nat; 4%nat; 6%nat] in
+  let sched := [(2%nat, mkpc 2 3 5 0)] in let sched1 := [(2%nat, mkpc 2 1 5 0)] in
+  let forced := [(4%nat, mkpc 4 1 6 0); (3%nat, mkpc 3 2 7 0)] in
+  let evs := [Import 1; Import 2; Import 3; Import 4; Import 5] in
+  let g := fst (run_go fixed t sched forced ginit evs) in
+  let g1 := fst (run_go fixed t sched1 forced ginit evs) in
+  let g2 := fst (run_go fixed t sched forced ginit (evs ++ [Finalise 2])) in
+  wf t = true /\
+  snd (run_go fixed t sched forced ginit (evs ++ [Finalise 2])) = [ROk; ROk; ROk; ROk; ROk; ROk] /\
+  (map nblk (g_roots g), map pc_blk (g_forced g)) = ([2%nat], [3%nat; 4%nat]) /\
+  map (go_next_change fixed t g) [4%nat; 5%nat; 6%nat; 7%nat] = [Some None; Some None; Some (Some 4); Some (Some 4)] /\
+  option_map (fun q => map (spec_next_change t q) [4%nat; 5%nat; 6%nat; 7%nat]) (run_spec t sched forced sinit evs)
+    = Some [None; None; Some 4; Some 4] /\
+  go_next_change fixed t g1 7 = Some (Some 3) /\
+  option_map (fun q => spec_next_change t q 7) (run_spec t sched1 forced sinit evs) = Some (Some 3) /\
+  option_map (fun q => guard_forced_on_finalised t q (Finalise 2)) (run_spec t sched forced sinit evs) = Some false /\
+  (map nblk (g_roots g2), map pc_blk (g_forced g2)) = ([2%nat], [4%nat]) /\
+  map (go_next_change fixed t g2) [4%nat; 6%nat; 7%nat] = [Some None; Some (Some 4); Some (Some 4)] /\
+  option_map (fun q => (map nblk (s_roots q), map pc_blk (s_forced q), map (spec_next_change t q) [4%nat; 6%nat; 7%nat]))
+             (run_spec t sched forced sinit (evs ++ [Finalise 2]))
+    = Some ([2%nat], [3%nat; 4%nat], [None; Some 4; Some 4]).
+Proof. vm_compute. repeat split; reflexivity. Qed.
+
 (* --- refinement, exhaustive small scope.  For EVERY well-formed block tree with at most 3
    blocks besides genesis, every assignment of at most 2 change announcements (scheduled or
    forced, delays 0..2, every best-finalized number up to the block's own) and EVERY order of
